@@ -1,8 +1,8 @@
 package c02
 
 import (
-	"strconv"
 	"fmt"
+	"strconv"
 	"strings"
 )
 
